@@ -73,6 +73,13 @@ CLAIMED["C05"] = ("Proof (deductive, all K/OP/OPc/RAND/AUTN, all algorithm ident
   "The precondition snName = SNName(mcc, mnc) is discharged at the call site in RegisterUE only under C01 (not claimed yet). SUPIs of 15 digits only (shape).",
   "DESIGN.md §4 C05")
 
+CLAIMED["C14"] = ("Proof (deductive, arbitrary input octets) for the decoding primitives of the APER codec: GetBitString, GetBitsValue, bitCarry, getBitString, getBitsValue, parseAlignBits, parseConstraintValue, parseLength, "
+  "parseBool, parseEnumerated, getChoiceIndex, parseInteger, parseBitString, parseOctetString — under the cursor invariant alone each returns a value or an error, never panics (all index/slice/shift/allocation obligations), keeps the invariant, "
+  "never moves the cursor backwards, allocates no more than the input length (+8), and its loops terminate (variants on the fragment loops); functional clauses: extracted bit fields equal the X.691 bit-field spec (/verif/spec/per).",
+  "NOT covered by proof: the reflection-driven traversal (parseField, parseSequenceOf, parseOpenType, Unmarshal*, ngap.Decoder) is outside the executor's subset; the claim is about the primitives every path of that traversal bottoms out in. "
+  "Trusted: govc, go/ssa, SMT solvers; log formatting helpers perBitLog/perRawBitLog (reflect) assumed effect-free.",
+  "DESIGN.md §4 C14")
+
 PENDING = {
 }
 
